@@ -134,7 +134,23 @@ def correspondence(ctx):
         if h[-1][0] == 'override' and rng.random() < 0.8:
             h.append(['clear'])
         hists.append(h)
-    res = vlib.run_impl('c20_impl.py', {'creation': specs, 'formatting': [], 'overrides': hists})
+    # the same class created several times in one grading (keywords, constant_fields, locations differ per call)
+    reps = []
+    for constant in (False, True):
+        reps.append({'constant': constant, 'calls': [{'x': 'one', 'line': 2}, {'x': 'two', 'line': 4}, {'x': None, 'line': 5}]})
+        reps.append({'constant': constant, 'calls': [{'x': 'one'}, {'x': None}, {'x': 'two', 'line': 3}]})
+        reps.append({'constant': constant, 'calls': [{'x': 'one', 'fields': True, 'line': 1}, {'x': 'two', 'line': 2}, {'x': 'three', 'fields': True}]})
+        for _ in range(6 if ctx.tier == 'quick' else 60):
+            reps.append({'constant': constant,
+                         'calls': [{'x': rng.choice(['one', 'two', 'v', None, None]), 'line': rng.choice([None, 1, 2, 3, 4, 5]),
+                                    'fields': rng.random() < 0.25} for _ in range(rng.randrange(2, 6))]})
+    res = vlib.run_impl('c20_impl.py', {'creation': specs, 'formatting': [], 'overrides': hists, 'repeated': reps})
+    for sp, problems in zip(reps, res['repeated']):
+        ctx.case(('repeated', json.dumps(sp, sort_keys=True)), nontrivial=True)
+        ctx.count('repeated:' + ('constant_fields' if sp['constant'] else 'plain'))
+        if problems:
+            ctx.violation('repeated-calls:' + ('constant_fields' if sp['constant'] else 'plain'),
+                          {'spec': sp, 'problems': problems, 'why': 'the same feedback class created several times: ' + '; '.join(problems[:3])})
     available = res['available']
     fspecs = list(available) + ['>10:' + a for a in available] + fmts_extra + [a + 's' for a in available]
     res2 = vlib.run_impl('c20_impl.py', {'creation': [], 'formatting': fspecs, 'overrides': []})
